@@ -1324,6 +1324,20 @@ pub mod verif {
             .map(|g| (g.kernel_name().to_string(), g))
             .collect()
     }
+
+    /// The AVX-512 int8 kernel forced onto its non-VNNI (`vpmaddubsw`) code
+    /// path, if AVX-512 is available.
+    #[cfg(target_arch = "x86_64")]
+    pub fn int8_gemm_executor_avx512_without_vnni()
+    -> Option<(String, crate::GemmExecutor<u8, i8, i32>)> {
+        let kernel = crate::kernels::x86_64::Avx512Int8Kernel::new_without_vnni()?;
+        Some((
+            "x86_64-u8i8i32-avx512-novnni".to_string(),
+            crate::GemmExecutor {
+                kernel: Box::new(kernel),
+            },
+        ))
+    }
     // --- end C17 ---
     // --- C37: block-quantized kernels with a chosen ISA (b-C37) ---
     pub use crate::block_quant::verif as block_quant;
